@@ -579,6 +579,14 @@ namespace
                         int a = fm[key], b = mm[key];
                         if (a != b) violate("C02/flat_map-index", "operator[](%d) = %d, std::map gives %d", key, a, b);
                         if (val % 2) { fm[key] = val; mm[key] = val; }
+                        if (val % 3 == 0)
+                        {
+                            // the key of a lookup is an element of the map itself (parent[parent[x]]): the argument refers into the
+                            // storage that the insertion of a missing key may move
+                            int c = fm[fm[key]], d = mm[mm[key]];
+                            if (c != d) violate("C02/flat_map-index", "m[m[%d]] = %d, std::map gives %d", key, c, d);
+                            probe("lookup_key_is_a_mapped_value");
+                        }
                         break;
                     }
                     case M_AT:
